@@ -32,7 +32,9 @@ ASSUMPTIONS = [
 PARTIAL = [
     "accepts_iff_contains (Bassino-Bouvel-Pierrot-Rossin): for w in L(M), |w|>=2: accepts (dfa B) w <-> exists b in B, "
     "Contains (perm w) b -- evaluated for all w in L(M) with |w| <= 8 and all bases of <= 2 permutations of length <= 4 "
-    "(bounded test, op sembits) and for random longer words (op accs)",
+    "(bounded test, op sembits) and for random longer words (op accs); cross-consistency with C14 IS proved "
+    "(C14.nfa_vs_occurrences / _M / _general in Props/C14.lean: the NFA of u accepts m in L(M), |m|>=2, iff "
+    "pinword_contains(m_to_sp(m), u)), so this item and C14's pinword_contains_iff are one and the same open statement",
     "db_equiv: shipped dfa_db automata language-equivalent to the automata computed from scratch -- complete comparison "
     "of canonical minimal automata for every shipped file (ops dbcanon/canondb), not a Lean theorem",
 ]
